@@ -14,16 +14,16 @@ void *vf_lib_realloc(void *p, size_t n) { return realloc(p, n); }
 void *vf_lib_reallocarray(void *p, size_t a, size_t b) { return reallocarray(p, a, b); }
 void vf_lib_free(void *p) { free(p); }
 }
-static ConcWorld *W; static std::vector<Str> solo; static std::atomic<long> mismatches(0), calls(0); static int rounds = 300;
+static ConcWorld *W; static std::vector<std::vector<Str> > solo; static std::atomic<long> mismatches(0), calls(0); static int rounds = 300;
 static void *worker(void *arg) {
     long id = (long)arg;
-    for (int r = 0; r < rounds; r++) for (int b = 0; b < CONC_NBODIES; b++) { int body = (int)((b + id + r) % CONC_NBODIES); Str got = W->run_body(body, (int)id); calls++; if (got != solo[body]) mismatches++; }
+    for (int r = 0; r < rounds; r++) for (int b = 0; b < CONC_NBODIES; b++) { int body = (int)((b + id + r) % CONC_NBODIES); Str got = W->run_body(body, (int)(id % 3)); calls++; if (got != solo[body][id % 3]) mismatches++; }
     return 0;
 }
 int main(int argc, char **argv) {
     int nthreads = argc > 1 ? atoi(argv[1]) : 16; if (argc > 2) rounds = atoi(argv[2]);
     ConcWorld world(0); W = &world;
-    for (int b = 0; b < CONC_NBODIES; b++) solo.push_back(world.run_body(b, 0));
+    for (int b = 0; b < CONC_NBODIES; b++) { solo.push_back(std::vector<Str>()); for (int sl = 0; sl < 3; sl++) solo[b].push_back(world.run_body(b, sl)); }
     std::vector<pthread_t> th(nthreads);
     for (long i = 0; i < nthreads; i++) pthread_create(&th[i], 0, worker, (void *)i);
     for (int i = 0; i < nthreads; i++) pthread_join(th[i], 0);
